@@ -26,6 +26,8 @@ pub fn alphabet() -> Vec<(&'static str, Value)> {
         ("calc_uncovered", call("calculate_report", json!({"transactions": "2024-02-01 SELL X 4 @ 12"}))),
         ("calc_nofx", call("calculate_report", json!({"transactions": "2031-01-01 BUY X 10 @ 10 USD\n2031-02-01 SELL X 4 @ 12 USD"}))),
         ("calc_syntax", call("calculate_report", json!({"transactions": "2024-02-01 SELL X"}))),
+        // a failing calculation with several possible culprits (three tax years without a configured exemption)
+        ("calc_unconfigured_years", call("calculate_report", json!({"transactions": "2010-01-10 BUY X 100 @ 10\n2011-06-01 SELL X 10 @ 12\n2012-06-01 SELL X 10 @ 12\n2013-06-01 SELL X 10 @ 12"}))),
         ("explain_baddate", call("explain_matching", json!({"transactions": LED, "disposal_date": "01/02/2024", "ticker": "X"}))),
         ("explain_unknown_ticker", call("explain_matching", json!({"transactions": LED2, "disposal_date": "2024-02-01", "ticker": "ZZZ"}))),
         ("badtype", call("get_fx_rate", json!({"currency": "USD", "year": "x", "month": 3}))),
@@ -116,6 +118,36 @@ pub fn c20(tier: Tier) -> i32 {
             acc.violation(&ctx.findings, "C20", Violation { clause: "answer-not-a-function-of-arguments".into(), input: inp, detail: format!("request '{name}' sent alone to {reps} fresh servers produced {} different answers, e.g. {:?}", distinct.len(), distinct.iter().take(2).map(|d| d.as_ref().map(|s| s.chars().skip(s.len().saturating_sub(160)).collect::<String>())).collect::<Vec<_>>()), context: json!({"profile": "solo", "request": alpha[i].1}) });
         }
         solo[i] = outs[0].clone();
+    }
+    // the same failing request with the embedded exemption table only (2011-2013 are not in it): whichever year the
+    // error names, it must be the same in every fresh server
+    {
+        let req = alpha.iter().find(|(n, _)| *n == "calc_unconfigured_years").map(|(_, b)| b.clone()).unwrap_or_else(|| machinery_failure("alphabet"));
+        let outs: Vec<Option<String>> = (0..12)
+            .into_par_iter()
+            .map(|_| {
+                let sc = Scratch::new();
+                let mut m = Mcp::start(&sc);
+                let mut b = req.clone();
+                b["jsonrpc"] = json!("2.0");
+                b["id"] = json!(1);
+                m.send_raw(&b.to_string());
+                let ok = m.wait_for(&["1".to_string()], Duration::from_secs(10));
+                let r = if ok && m.got["1"].len() == 1 { Some(body(&m.got["1"][0])) } else { None };
+                let _ = m.finish();
+                r
+            })
+            .collect();
+        acc.states += 12;
+        acc.validated += 12;
+        acc.bump("solo-sessions-embedded-config");
+        let inp = Input::Json(json!({"requests": ["calc_unconfigured_years"], "bodies": [req], "config": "embedded table only"}));
+        if outs.iter().any(|o| o.is_none()) {
+            acc.violation(&ctx.findings, "C20", Violation { clause: "request-not-answered-exactly-once".into(), input: inp, detail: "not answered exactly once in every fresh session".into(), context: json!({"profile": "solo-embedded-config"}) });
+        } else if outs.iter().any(|o| o != &outs[0]) || !outs[0].as_deref().unwrap_or("").contains("201") {
+            let distinct: std::collections::BTreeSet<String> = outs.iter().flatten().map(|s| s.chars().take(220).collect()).collect();
+            acc.violation(&ctx.findings, "C20", Violation { clause: "answer-not-a-function-of-arguments".into(), input: inp, detail: format!("12 fresh servers gave {} different answers to the same request: {:?}", distinct.len(), distinct), context: json!({"profile": "solo-embedded-config"}) });
+        }
     }
     let answered: Vec<usize> = (0..alpha.len()).filter(|i| solo[*i].is_some()).collect();
     ctx.require(answered.len() >= alpha.len() - 1, "more than one alphabet request is unanswered in a solo session");
@@ -223,10 +255,16 @@ fn fixtures(ctx: &Ctx, acc: &mut Acc) {
     if names.len() < 30 {
         machinery_failure("fixture ledgers not found under /repo/tests/inputs");
     }
+    // plus a generated ledger with a sale on each side of every tax-year boundary 2016-2025 (leap years included)
+    let mut boundary = String::from("2015-01-05 BUY EDGE 1000 @ 10\n");
+    for y in 2016..=2025 {
+        boundary.push_str(&format!("{y}-04-05 SELL EDGE 3 @ 12 FEES 1\n{y}-04-06 SELL EDGE 2 @ 13\n"));
+    }
+    names.push("generated:tax-year-boundaries".to_string());
     let part = names
         .par_iter()
         .fold(Acc::new, |mut acc, name| {
-            let text = std::fs::read_to_string(format!("{dir}/{name}.cgt")).unwrap_or_default();
+            let text = if name.starts_with("generated:") { boundary.clone() } else { std::fs::read_to_string(format!("{dir}/{name}.cgt")).unwrap_or_default() };
             if text.trim().is_empty() || mcx::refparse::parse(&text).map(|t| t.is_empty()).unwrap_or(true) {
                 acc.bump("fixtures:empty-skipped");
                 return acc;
